@@ -24,7 +24,13 @@ def c08():
     return [codec.IntFromBytes(), codec.Decode(), codec.EncodeRoundTrip(), codec.AtomSizeBlob()]
 
 
+def c06():
+    from harness import stepper
+    return [stepper.PathLookup()]
+
+
 REGISTRY = {
+    'C06': dict(harnesses=c06, run=_runner('C06', c06)),
     'C08': dict(harnesses=c08, run=_runner('C08', c08)),
     'C04': dict(harnesses=c04, run=_runner('C04', c04)),
 }
